@@ -551,7 +551,8 @@ func (x *Exec) debugRef(fr *Frame, st *State, d *ssa.DebugRef) {
 	if obj == nil {
 		return
 	}
-	if _, isVar := obj.(*types.Var); !isVar {
+	if vr, isVar := obj.(*types.Var); !isVar || vr.IsField() {
+		// a store to x.f carries a DebugRef whose object is the FIELD f: not a source-level variable
 		return
 	}
 	v := x.get(st, d.X)
